@@ -26,7 +26,7 @@ def g_et(p):
 
 def gen_time_ops(rng, n):
     ops = []
-    vals = [0, 1, -1, 2, 3, 7, 999, 1000, 1001, -1000, 1500, 10 ** 6, 10 ** 6 + 1, -10 ** 6, 123456789]
+    vals = [0, 1, -1, -2, -3, 2, 3, 7, 999, 1000, 1001, -1000, -2000, 1500, 10 ** 6, 10 ** 6 + 1, -10 ** 6, -2 * 10 ** 6, 123456789]
 
     def et(maxus=B):
         u = rng.randrange(3)
@@ -50,6 +50,14 @@ def gen_time_ops(rng, n):
         if k in ("add", "sub"):
             a, b = et(B // 2), et(B // 2)
             ops.append([k, a, b])
+        elif k in ("eq", "lt", "le", "gt", "ge", "ne", "dict") and rng.random() < 0.15:
+            # neighbours of the `invalid` marker (-1us) in every unit: values whose integer hash CPython alters
+            a = [rng.choice([-1, -2, -3, 0]), 0]
+            bus = rng.choice([-1, -2, -3, -1000, -2000, -1000000, -2000000])
+            u2 = rng.randrange(3)
+            f2 = [1, 1000, 10 ** 6][u2]
+            b = [bus // f2, u2] if bus % f2 == 0 else [bus, 0]
+            ops.append([k, a, b] if rng.random() < 0.5 else [k, b, a])
         elif k in ("eq", "lt", "le", "gt", "ge", "ne", "dict"):
             a = et(B // 2)
             if rng.random() < 0.4:   # equal instants in different units
@@ -100,9 +108,15 @@ def gen_queue_hist(rng, maxops):
     h = []
     live = []
     nid = 0
-    times = [0, 1, 1, 2, 5, 5, 5, 9]
-    for _ in range(rng.randint(3, maxops)):
+    times = [0, 1, 1, 2, 5, 5, 5, 9] if rng.random() < 0.6 else [1, 2, 3, 4, 5, 6, 7, 8, 9, 10]
+    long_ = rng.random() < 0.35          # some histories build a queue of 7-12 events before disturbing it
+    nops = rng.randint(3, maxops) if not long_ else rng.randint(12, maxops + 14)
+    for step in range(nops):
         r = rng.random()
+        if long_ and step < 7:
+            r = 0.0
+        if long_ and 7 <= step < 10 and live:
+            r = rng.choice([0.5, 0.5, 0.6, 0.2])
         if r < 0.45 or not live:
             ty = rng.choice(ALL_TYPES if rng.random() < 0.5 else [3, 5, 10, 11, 12])
             name = rng.choice(NAMES) if ty in TASK_TYPES else None
